@@ -15,7 +15,7 @@ using namespace tulz;
 namespace {
 
 struct Cover {
-    uint64_t movedBeforeUse = 0, clampHistories = 0, clampCorrections = 0, longLifeCycles = 0, throwingSubscriberRuns = 0, unsubscribeInCallbackRuns = 0;
+    uint64_t movedBeforeUse = 0, clampHistories = 0, clampCorrections = 0, longLifeCycles = 0, throwingSubscriberRuns = 0, unsubscribeInCallbackRuns = 0, chainedRuns = 0, nestedOperationRuns = 0;
     uint64_t histories = 0, ops = 0, changed = 0, unchanged = 0, calls = 0, subs = 0, unsubs = 0, nontrivialCases = 0, eqEqualButDifferent = 0;
     std::map<std::string, uint64_t> opCount, typeCount;
     std::vector<uint64_t> fps;
@@ -356,7 +356,7 @@ void runClampCase(uint64_t seed, int steps) {
 // (2) a subscriber that unsubscribes a later one from inside its callback: the later one is not notified any more.
 void runSpecialCase(rt::Rng rng) {
     using Obs = Observable<int>;
-    unsigned kind = (unsigned) rng.below(3);
+    unsigned kind = (unsigned) rng.below(5);
     char d[200];
     struct Rec { int last = -1; int calls = 0; };
     if (kind == 0) {
@@ -433,6 +433,49 @@ void runSpecialCase(rt::Rng rng) {
             ++C.ops;
         }
         ++C.throwingSubscriberRuns;
+    } else if (kind == 3) {
+        // two Observables of the same type chained through a subscriber (celsius -> fahrenheit): both notify completely
+        Obs a{0}, b{0};
+        Rec a1, a3, b1, b2;
+        auto s1 = a.subscribe([&a1](const int &v) { a1.last = v; ++a1.calls; });
+        auto s2 = a.subscribe([&b](const int &v) { b = v * 2 + 32; });
+        auto s3 = a.subscribe([&a3](const int &v) { a3.last = v; ++a3.calls; });
+        auto t1 = b.subscribe([&b1](const int &v) { b1.last = v; ++b1.calls; });
+        auto t2 = b.subscribe([&b2](const int &v) { b2.last = v; ++b2.calls; });
+        gHist = "two Observable<int> chained through a subscriber: ";
+        int model = 0, steps = (int) rng.range(2, 8);
+        for (int k = 0; k < steps && !gCaseFailed; ++k) {
+            int x = model + (int) rng.range(1, 9);
+            gHist += "=" + std::to_string(x) + " ";
+            a1.calls = a3.calls = b1.calls = b2.calls = 0;
+            a = x; model = x;
+            int wb = x * 2 + 32;
+            if (a1.calls != 1 || a3.calls != 1 || b1.calls != 1 || b2.calls != 1 || a1.last != x || a3.last != x || b1.last != wb || b2.last != wb || a.value() != x || b.value() != wb)
+                fail("chained-notification", "chain", "after the first Observable changed to " + std::to_string(x) + " its recorders were called " + std::to_string(a1.calls) + "/" + std::to_string(a3.calls) + " time(s) holding " + std::to_string(a1.last) + "/" + std::to_string(a3.last) +
+                     ", the second one's " + std::to_string(b1.calls) + "/" + std::to_string(b2.calls) + " time(s) holding " + std::to_string(b1.last) + "/" + std::to_string(b2.last) + " (expected " + std::to_string(wb) + ") | " + gHist);
+            ++C.ops;
+        }
+        ++C.chainedRuns;
+    } else if (kind == 4) {
+        // several operations from inside one callback: every operation that changes the value notifies, none is folded away
+        Obs o{0};
+        Rec r1, r2;
+        int extra = (int) rng.range(2, 3);
+        bool armed = false;
+        auto sa = o.subscribe([&](const int &) { if (armed) { armed = false; for (int i = 0; i < extra; ++i) { if (i & 1) o += 1; else ++o; } } });
+        auto s1 = o.subscribe([&r1](const int &v) { r1.last = v; ++r1.calls; });
+        auto s2 = o.subscribe([&r2](const int &v) { r2.last = v; ++r2.calls; });
+        gHist = "a subscriber performs " + std::to_string(extra) + " changing operations from inside its callback";
+        o = 10;
+        r1.calls = r2.calls = 0;
+        armed = true;
+        o = 20;
+        int ops = 1 + extra, want = 20 + extra;
+        if (o.value() != want || r1.calls != ops || r2.calls != ops || r1.last != want || r2.last != want)
+            fail("nested-operations-folded", "callback", gHist + ": value() = " + std::to_string(o.value()) + " (expected " + std::to_string(want) + "), the recorders were notified " + std::to_string(r1.calls) + "/" + std::to_string(r2.calls) +
+                 " time(s) for " + std::to_string(ops) + " changing operations and hold " + std::to_string(r1.last) + "/" + std::to_string(r2.last));
+        C.ops += (uint64_t) ops;
+        ++C.nestedOperationRuns;
     } else {
         Obs level{0};
         Rec ra, rb, rc;
@@ -496,7 +539,7 @@ int main(int argc, char **argv) {
     rt::dumpFingerprints(C.fps);
     rt::finish(rt::Json().kv("engine", "h_observable").kv("histories", C.histories).kv("ops", C.ops).kv("changingOps", C.changed)
                    .kv("nonChangingOps", C.unchanged).kv("subscriberCalls", C.calls).kv("subscribes", C.subs).kv("unsubscribes", C.unsubs)
-                   .kv("eqEqualButDifferentAssignments", C.eqEqualButDifferent).kv("observablesMovedBeforeUse", C.movedBeforeUse).kv("reentrantClampHistories", C.clampHistories).kv("reentrantCorrections", C.clampCorrections).kv("longLifeCycles", C.longLifeCycles).kv("throwingSubscriberRuns", C.throwingSubscriberRuns).kv("unsubscribeInCallbackRuns", C.unsubscribeInCallbackRuns).kv("nontrivialCases", C.nontrivialCases)
+                   .kv("eqEqualButDifferentAssignments", C.eqEqualButDifferent).kv("observablesMovedBeforeUse", C.movedBeforeUse).kv("reentrantClampHistories", C.clampHistories).kv("reentrantCorrections", C.clampCorrections).kv("longLifeCycles", C.longLifeCycles).kv("throwingSubscriberRuns", C.throwingSubscriberRuns).kv("unsubscribeInCallbackRuns", C.unsubscribeInCallbackRuns).kv("chainedObservableRuns", C.chainedRuns).kv("nestedOperationRuns", C.nestedOperationRuns).kv("nontrivialCases", C.nontrivialCases)
                    .raw("opCount", rt::jsonCounts(C.opCount)).raw("types", rt::jsonCounts(C.typeCount)).raw("samples", rt::jsonArray(C.samples, false)));
     return 0;
 }
